@@ -133,9 +133,16 @@ CHECKS = {
         design_ref="DESIGN.md §4 C08",
         note="A preserved member name must survive only when its class is preserved too (left open by the statement); clients run in subprocesses with the scenario root on PYTHONPATH.",
     ),
+    "C19": dict(
+        technique="runtime differential execution + bytecode monitor: every naming rule is applied alone and inside format_code traces to programs with adversarial identifiers; both versions are executed (every binding printed) and the compiled code objects are compared up to a per-namespace bijective renaming (dis)",
+        category="exploration",
+        text="Generated programs bind names drawn from one word's camelCase / snake_case / Capitalised / UPPER / underscore variants, builtins, soft keywords and pyrefact's generated-name prefixes in 14 binding forms (assignment, augmented, def with keyword use, class and attribute, for / with / import-as / except-as targets, global, nonlocal, comprehension, del, lambda, walrus); half the programs give each form names of its own, half reuse names across forms; 12 hand-written collision probes put the would-be new name (an existing local, a builtin, an import, a sibling method, a keyword) beside the name to be renamed; plus the untidy idiom programs of C02. For the 10 renaming rules alone and every text-changing step of format_code: (1) stdout / exception class of both versions must agree; (2) when only identifiers changed, the instruction streams of all code objects must be equal up to a bijection per namespace, consistent between closures and globals, and no new name may be a keyword or builtin.",
+        design_ref="DESIGN.md §4 C19",
+        note="Programs are closed and deterministic; attribute renames are observed through execution (getattr / keyword use), not statically.",
+    ),
 }
 
-NOT_YET = {}
+NOT_YET = {"C18": "no check registered yet: the package-world monitor for import normalisation is still being built (see DESIGN.md §4 C18)"}
 
 
 def main():
